@@ -54,6 +54,11 @@ func WithGlobalTx(ctx context.Context, gc *GtxConfig, business CallbackWithCtx) 
 		ctx = InitSeataContext(ctx)
 	}
 
+	// the caller's transaction context (xid, role, name) must be intact again when this scope
+	// ends, whatever the scope did to a context it shares with its caller
+	outer := *GetTx(ctx)
+	defer SetTx(ctx, &outer)
+
 	if IsGlobalTx(ctx) {
 		clearTxConf(ctx)
 	}
